@@ -17,9 +17,10 @@ EXTENDS System, Json, IOUtils
 Rec == ndJsonDeserialize(IOEnv.TRACE)
 
 VARIABLES l,        \* index of the next event
-          obs       \* what the code itself reported for this run: [pres, vres] ("" = not yet)
+          obs,      \* what the code itself reported for this run: [pres, vres] ("" = not yet)
+          pool      \* C07: the specification's individual results of the runs since the last batch_begin
 
-tvars == << vars, l, obs >>
+tvars == << vars, l, obs, pool >>
 NoObs == [pres |-> "", vres |-> ""]
 
 Has(r, f) == f \in DOMAIN r
@@ -93,7 +94,7 @@ CallOf(r) ==
   THEN [op |-> "con", lc |-> ExprTerms(r.e) \o (IF Has(r, "c") THEN FromConst(r.c) ELSE << >>)]
   ELSE r
 
-TraceInit == Init /\ l = 1 /\ obs = NoObs
+TraceInit == Init /\ l = 1 /\ obs = NoObs /\ pool = << >>
 
 TraceSetup ==
   /\ IsEvent("setup")
@@ -189,7 +190,7 @@ TraceVerify ==
 \* end of a run: the transcripts handed back must drive identical follow-up challenges (C06)
 TraceEnd ==
   /\ IsEvent("end") /\ ~degen
-  /\ (res.P = "ok" /\ res.V = "ok" /\ wire = sent) => Ev.sync = "same"
+  /\ (res.P = "ok" /\ res.V = "ok" /\ wire = sent) => Ev.sync \in {"same", "skip"}     \* skip: not measured (batch members)
   /\ UNCHANGED vars
 
 \* decoding of a tampered encoding failed: the verifier never ran
@@ -197,15 +198,31 @@ TraceDecode == IsEvent("decode") /\ ~degen /\ UNCHANGED vars
 
 \* after a degenerate event nothing is demanded until the next run starts
 TraceSkip ==
-  /\ degen /\ l <= Len(Rec) /\ Rec[l].ev # "setup" /\ l' = l + 1
+  /\ degen /\ l <= Len(Rec) /\ Rec[l].ev \notin {"setup", "end", "batch_begin", "batch"} /\ l' = l + 1
   /\ UNCHANGED vars
 
+(* C07: a batch over the runs recorded since batch_begin.  The batch verdict must be the specification's
+   BatchVerdict of the individual results under the weights the batch drew - one scalar per instance. *)
+TraceBatchBegin == IsEvent("batch_begin") /\ pool' = << >> /\ UNCHANGED << vars, obs >>
+TraceBatch ==
+  /\ IsEvent("batch")
+  /\ \/ \E i \in 1 .. Len(pool) : pool[i].degen          \* a member hit a zero challenge: nothing is demanded
+     \/ /\ Len(pool) = Ev.n /\ Len(Ev.alphas) = Ev.n
+        \* exactly one weight per instance is drawn - after every instance's scalars were computed, so none on an early error
+        /\ Ev.rng_bytes = (IF \E i \in 1 .. Len(pool) : pool[i].alg = << >> THEN 0 ELSE Ev.rng_bytes_expected)
+        /\ Ev.res = BatchVerdict(pool, Ev.alphas)
+  /\ pool' = << >> /\ UNCHANGED << vars, obs >>
+
 TraceNext ==
-  \/ TraceSetup /\ obs' = NoObs
-  \/ (TraceNew \/ TraceCall \/ TraceProve1 \/ TraceVerify1 \/ TraceWire \/ TraceDecode \/ TraceEnd \/ TraceSkip)
-       /\ UNCHANGED obs
-  \/ (TraceProve2 \/ TraceProve) /\ obs' = [obs EXCEPT !.pres = Ev.res]
-  \/ (TraceVerify2 \/ TraceVerify) /\ obs' = [obs EXCEPT !.vres = Ev.res]
+  \/ TraceSetup /\ obs' = NoObs /\ UNCHANGED pool
+  \/ (TraceNew \/ TraceCall \/ TraceProve1 \/ TraceVerify1 \/ TraceWire \/ TraceDecode \/ TraceSkip)
+       /\ UNCHANGED << obs, pool >>
+  \/ TraceEnd /\ UNCHANGED obs
+       /\ pool' = IF res.V = "" THEN pool ELSE Append(pool, [res |-> res.V, alg |-> out.ref, degen |-> FALSE])
+  \/ (degen /\ IsEvent("end") /\ UNCHANGED << vars, obs >> /\ pool' = Append(pool, [res |-> "", alg |-> << >>, degen |-> TRUE]))
+  \/ (TraceProve2 \/ TraceProve) /\ obs' = [obs EXCEPT !.pres = Ev.res] /\ UNCHANGED pool
+  \/ (TraceVerify2 \/ TraceVerify) /\ obs' = [obs EXCEPT !.vres = Ev.res] /\ UNCHANGED pool
+  \/ TraceBatchBegin \/ TraceBatch
 
 TraceSpec == TraceInit /\ [][TraceNext]_tvars
 
